@@ -45,6 +45,7 @@ fn main() {
         "C03" => vcheck::checks::c03::run(tier),
         "C04" => vcheck::checks::c04::run(tier),
         "C05" => vcheck::checks::c05::run(tier),
+        "C07" => vcheck::checks::c07::run(tier),
         "C08" => vcheck::checks::c08::run(tier),
         "C09" => vcheck::checks::c09::run(tier),
         "C10" => vcheck::checks::c10::run(tier),
